@@ -43,7 +43,7 @@ func runC09(s *kernel.Sim) {
 	tp := s.Tape
 	nRem := tp.Range(1, 3)
 	wins := []int{1, 2, 3, 5, 10, 60, 7, 13, 1000}
-	pcts := []int{1000, 500, 333, 250, 100, 0, 667, 15}
+	pcts := []int{1000, 500, 333, 250, 100, 0, 667, 15, 1500, 1250} // tenths of a percent; nothing caps a share at the whole allowance
 	var rems []*c09remedy
 	// a quarter of the runs use large allowances and arbitrary whole percentages, and
 	// fill a group's share to the brim: the share is ceil(allowed * percentage / 100)
